@@ -367,6 +367,34 @@ def r07_1(prog: Program, rep):
     return lp
 
 
+def r07_4(prog: Program, rep):
+    """A held lock is an error for the contender, never a reason to skip the write: no handler outside file.py catches
+    FileLocked without re-raising.  (A stale <x>.lock left by a crash would otherwise make every later writer 'succeed'
+    without writing - objects, refs or the index silently not stored.)"""
+    probe = ast.parse("def f():\n    try:\n        g()\n    except FileLocked:\n        return\n")
+
+    def swallowers(tree):
+        out = []
+        for h in [x for x in ast.walk(tree) if isinstance(x, ast.ExceptHandler) and x.type is not None]:
+            names = [dotted(e) or "" for e in (h.type.elts if isinstance(h.type, ast.Tuple) else [h.type])]
+            if any(nm.split(".")[-1] == "FileLocked" for nm in names) and not any(isinstance(y, ast.Raise) for y in ast.walk(h)):
+                out.append(h)
+        return out
+    if len(swallowers(probe)) != 1:
+        raise AnalysisError("R07.4 detector self-check failed")
+    found = []
+    for m in prog.modules.values():
+        if m.rel == FILE_PY or m.rel.startswith("dulwich/cli") or m.rel.startswith("dulwich/contrib"):
+            continue
+        for h in swallowers(m.tree):
+            f = m.enclosing_func(h)
+            found.append((m.rel, f.qual if f else "<module>", h))
+    rep.ob("R07.4", found[0][0] if found else FILE_PY, found[0][1] if found else "<package>", "FileLocked is never swallowed outside the lock module", not found,
+           "the handler turns 'somebody holds the lock' into success: with a stale lock file (left by a crash) the write is skipped silently and "
+           "whatever refers to the object / ref / index afterwards points at something that was never stored", found[0][2].lineno if found else 0)
+    rep.count("modules scanned for FileLocked handlers", len(prog.modules))
+
+
 # =============================================================================== R07.2
 
 def _handle_name(e):
@@ -404,6 +432,14 @@ class HandleRule:
                             t = _handle_name(e.targets[0])
                             if t:
                                 self.aliases.add(t)
+        for n in g.nodes.values():
+            if n.kind == "with_enter":
+                item = n.ast.items[n.info]
+                ce = item.context_expr
+                if isinstance(ce, ast.Call) and callee_name(ce) in wrappers and item.optional_vars is not None:
+                    a = arg_of(ce, wrappers[callee_name(ce)], None)
+                    if a is not None and _handle_name(a) == handle and _handle_name(item.optional_vars):
+                        self.aliases.add(_handle_name(item.optional_vars))
         # plain aliases `x = handle` (and `handle = x` for the name the acquisition was first bound to)
         self.same = {handle}
         for n in g.nodes.values():
@@ -427,6 +463,8 @@ class HandleRule:
                                 self.aliases.add(t)
         self.parked = handle.startswith("self.")
         self.problems: list[tuple[str, int, object]] = []
+        from sa.common import wrapper_exc_behaviour
+        self.wrapper_beh = wrapper_exc_behaviour(prog)
 
     def events(self, node) -> list[str]:
         n = node.ast
@@ -436,6 +474,16 @@ class HandleRule:
             v = _handle_name(item.optional_vars) if item.optional_vars is not None else None
             if (v == self.h and self.is_acquire_with(item)) or _handle_name(item.context_expr) in ({self.h} | self.aliases):
                 ev.append("EXIT_OK" if node.kind == "with_exit_ok" else "EXIT_EXC")
+            # `with Wrapper(h) as w:` - the wrapper's __exit__ decides: closing the wrapped lock file is a COMMIT
+            ce = item.context_expr
+            if isinstance(ce, ast.Call) and callee_name(ce) in self.wrappers:
+                a = arg_of(ce, self.wrappers[callee_name(ce)], None)
+                if a is not None and _handle_name(a) in self.same:
+                    beh = self.wrapper_beh.get(callee_name(ce), {})
+                    if node.kind == "with_exit_ok":
+                        ev.append("COMMIT")
+                    elif beh.get("exit_closes_on_exc"):
+                        ev.append("COMMIT_EXC")
             return ev
         for c in node_calls(node):
             if isinstance(c.func, ast.Attribute):
@@ -510,6 +558,10 @@ class HandleRule:
                     elif st == "HELD_EXC":
                         problems.append(("commit-on-failure-path", node.id, st))
                         st = "COMMITTED"
+                elif e == "COMMIT_EXC":
+                    if st in ("HELD", "HELD_EXC"):
+                        problems.append(("commit-on-failure-path", node.id, st))
+                        st = "COMMITTED"
                 elif e in ("ABORT", "EXIT_EXC"):
                     if st in ("HELD", "HELD_EXC"):
                         st = "RELEASED"
@@ -532,6 +584,11 @@ class HandleRule:
             truth = self.bound_test(node)
             if truth is not None and label in ("true", "false"):
                 if (label == "true") != truth:
+                    return None
+            if node.kind == "with_enter" and label in EXC_LABELS:
+                # `with h:` on a handle that is already open: _GitFile.__enter__ only returns self, entering cannot fail
+                item = node.ast.items[node.info]
+                if _handle_name(item.context_expr) in self.same:
                     return None
             if label in ("exc", "raise") and st == "HELD":
                 return "HELD_EXC"
@@ -584,6 +641,13 @@ def r07_2(prog: Program, rep):
     wrappers = closing_wrappers(prog)
     rep.count("closing wrapper classes (summary)", len(wrappers))
     rep.note("wrapper classes whose close() closes constructor argument: " + ", ".join(sorted(wrappers)))
+    from sa.common import wrapper_exc_behaviour
+    for wname, beh in sorted(wrapper_exc_behaviour(prog).items()):
+        wcls = prog.classes[wname][0]
+        cl = wcls.module.funcs.get(f"{wname}.close")
+        rep.ob("R07.2c", wcls.module.rel, f"{wname}.close", f"close() closes the wrapped file (self.{beh['attr']}) only on its normal path", not beh["close_on_exc"],
+               "the wrapped file is closed in a finally / handler: when the wrapped file is a lock file, closing COMMITS - a failure while the "
+               "trailer is written replaces the protected file by a truncated one", cl.node.lineno if cl else wcls.node.lineno)
     sites, unresolved = gitfile_write_sites(prog)
     for rel, ln, txt in unresolved:
         rep.note(f"GitFile call with non-constant mode not classified: {rel}:{ln} {txt}")
@@ -674,6 +738,16 @@ def r07_2(prog: Program, rep):
                    "a return/break/continue leaves the with-block before anything was written: __exit__ COMMITS, so the protected "
                    "file is replaced by an empty one (use abort() to give up)",
                    g.nodes[bad[0]].line if bad else call.lineno)
+        # R07.2p the protected path is written only through the lock handle: no plain write-mode open() of the very path the
+        # function holds the lock for (that would modify the file in place, visible to readers half written)
+        if call.args:
+            ptxt = norm(call.args[0])
+            inplace = [c for c in ast.walk(f.node) if isinstance(c, ast.Call) and dotted(c.func) in ("open", "io.open", "os.open") and c.args
+                       and norm(c.args[0]) == ptxt and c is not call and
+                       (len(c.args) < 2 or not isinstance(c.args[1], ast.Constant) or any(ch in str(c.args[1].value) for ch in "wax+"))]
+            rep.ob("R07.2p", rel, qual, f"`{ptxt}` is written only through the lock handle", not inplace,
+                   f"`{norm(inplace[0], 60)}` opens the protected path itself for writing while the lock is held: the file is modified in place "
+                   f"(readers see it empty or partial, a failure leaves it truncated)" if inplace else "", inplace[0].lineno if inplace else call.lineno)
         kinds = sorted({k for k, _, _ in probs})
         if not kinds:
             rep.ob("R07.2", rel, qual, key, True, f"{shape}; released on all paths", call.lineno)
@@ -720,6 +794,10 @@ def run(prog: Program, rep, tier="quick"):
     rep.rule("R07.1c", "typestate: no unlink of the lock path is reachable after a successful rename "
                        "(never disturbs a lock taken by someone else)")
     rep.rule("R07.1d", "every exceptional path out of close()/abort() has removed the lock or renamed it")
+    rep.rule("R07.4", "WHO-MAY-CATCH: FileLocked is never swallowed outside file.py (a held or stale lock fails the writer)")
+    rep.rule("R07.2p", "the path a function holds the lock for is never opened for writing directly in that function (in-place write under the lock)")
+    rep.rule("R07.2c", "closing wrappers (SHA1Writer, HashWriter, ...) close the wrapped lock file only on the normal path of close(); using one as a "
+                       "context manager around a lock file is a commit on the failure path when its __exit__ closes unconditionally")
     rep.rule("R07.2w", "no early exit (return/break/continue) out of a `with GitFile(.., 'wb')` block before anything was written: it would commit an empty file")
     rep.rule("R07.1g", "ownership flag agrees with the lock state on every exit of close()/abort() (no second unlink of a path given up)")
     rep.rule("R07.1e", "abort never touches the protected path")
@@ -733,6 +811,7 @@ def run(prog: Program, rep, tier="quick"):
                         "os.remove of the lock path succeeds when attempted"]
     r07_1(prog, rep)
     r07_2(prog, rep)
+    r07_4(prog, rep)
     from sa.common import alias_guard
     alias_guard(prog, rep, "R07.2", {"GitFile", "_GitFile"})
     rep.floor("R07.1b", 4)
